@@ -550,8 +550,8 @@ theorem tokenize_hoist (T : Tables) (hT : TablesOK T) (hC : TablesCanon T) (hC3 
   generalize rootOff n mid = q at hdt hel hmisc2 ⊢
   have hbom : Stream.startsWith ⟨0, D⟩ Lit.bom = false := by
     rw [eD]; simp [Stream.startsWith, Lit.bom, List.isPrefixOf]
-  have hdecl : Stream.startsWith ⟨0, D⟩ Lit.xmlDecl = false := by
-    rw [eD]; simp [Stream.startsWith, Lit.xmlDecl, List.isPrefixOf]
+  have hdecl : Stream.startsWithXmlDecl T ⟨0, D⟩ = false := by
+    rw [eD]; simp [Stream.startsWithXmlDecl, Stream.startsWith, Lit.xmlDeclOpen, List.isPrefixOf]
   have hdoc : Stream.startsWith ⟨0, D⟩ Lit.doctype = true := by
     rw [eD]; simp [Stream.startsWith, Lit.doctype, List.isPrefixOf]
   have hsk : Stream.skipSpaces T ⟨0, D⟩ = ⟨0, D⟩ := by
